@@ -16,10 +16,13 @@ def launch_state(mv, sh_ft, look, zero, rel, cant):
     return pos, vel
 
 
-def wind_segments(winds, shifts=None):
-    """[(until_ft, wx, wz)] sorted by until-distance (stable); zero wind beyond the last"""
+def wind_segments(winds, shifts=None, key=None):
+    """[(until_ft, wx, wz)] sorted by until-distance (stable); zero wind beyond the last.
+    `key` maps an until-distance in feet to the magnitude the order is decided on (the caller passes the quantity's
+    base-unit value: two distances one ulp apart in feet can be equal there, and equal distances keep the given order)"""
+    key = key or (lambda u: u)
     segs = []
-    for i, (speed, direction, until) in enumerate(sorted(winds or [], key=lambda w: w[2])):
+    for i, (speed, direction, until) in enumerate(sorted(winds or [], key=lambda w: key(w[2]))):
         u = until + (shifts[i] if shifts else 0.0)
         segs.append((u, speed * math.cos(direction), speed * math.sin(direction)))
     return segs
